@@ -7,7 +7,7 @@ from glue_common import CLASSES
 def run(ck, replay=None):
     rng = Rng(ck.seed)
     ck.rule = ('launches of 2..16 threads, each running init();compute() on its own solver: private problem/operator per thread (all 11 classes) or one '
-               'shared Dense/Sparse Sym/Gen product wrapper; results compared bitwise with the same runs executed one after another; ThreadSanitizer build; '
+               'shared Dense/Sparse Sym/Gen product wrapper, plus launches whose start vectors span a small invariant subspace (restart code) with different sizes per thread; results compared bitwise with the same runs executed one after another; ThreadSanitizer build; '
                'non-trivial = every launch (distinct class / thread count / seed)')
     st = regen()
     for f in ('InvGen.v', 'RngGen.v'):
@@ -42,6 +42,11 @@ def run(ck, replay=None):
                 nev = rng.range(1, 3)
                 ncv = rng.range(nev + 3, min(n, nev + 8))
                 lines.append('conc threads=%d mode=private cls=%s n=%d nev=%d ncv=%d mseed=%d reps=%d' % (T, cls, n, nev, ncv, rng.below(10 ** 6), reps))
+        # runs that go through a Krylov breakdown (restart code of Arnoldi::expand_basis), threads with different sizes
+        for cls in ('SymEigsSolver', 'GenEigsSolver', 'SymGEigsSolver_Cholesky', 'GenEigsRealShiftSolver'):
+            for _ in range(1 if ck.tier == 'quick' else 4):
+                T = rng.choice([3, 4, 8]); n = rng.range(10, 20); nev = rng.range(1, 2); ncv = rng.range(nev + 4, min(n, nev + 8))
+                lines.append('conc threads=%d mode=private cls=%s n=%d nev=%d ncv=%d mseed=%d reps=%d breakdown=1' % (T, cls, n, nev, ncv, rng.below(10 ** 6), reps))
         for cls in ('SymEigsSolver', 'GenEigsSolver', 'SparseSym', 'SparseGen'):
             for _ in range(2 if ck.tier == 'quick' else 8):
                 T = rng.choice([2, 4, 8, 16])
